@@ -30,14 +30,18 @@ struct Scenario {
     versions: usize,
     /// the forest collapses into a single bucket in version 2 and grows again afterwards
     collapse: bool,
+    /// available_memory given to every build (several insertion batches when more than 200 items are pending)
+    memory: Option<usize>,
 }
 
 fn scenario(name: &str) -> Scenario {
     match name {
-        "small" => Scenario { dim: 2, base_items: 6, indexes: 1, versions: 3, collapse: false },
-        "collapse" => Scenario { dim: 4, base_items: 14, indexes: 2, versions: 4, collapse: true },
-        "large" => Scenario { dim: 8, base_items: 300, indexes: 2, versions: 4, collapse: false },
-        _ => Scenario { dim: 24, base_items: 1500, indexes: 3, versions: 4, collapse: false },
+        "small" => Scenario { dim: 2, base_items: 6, indexes: 1, versions: 3, collapse: false, memory: None },
+        "collapse" => Scenario { dim: 4, base_items: 14, indexes: 2, versions: 4, collapse: true, memory: None },
+        "large" => Scenario { dim: 8, base_items: 300, indexes: 2, versions: 4, collapse: false, memory: None },
+        // several insertion batches per build: 250 items, then 450 more, under a zero memory hint
+        "batches" => Scenario { dim: 4, base_items: 210, indexes: 1, versions: 3, collapse: false, memory: Some(0) },
+        _ => Scenario { dim: 24, base_items: 1500, indexes: 3, versions: 4, collapse: false, memory: None },
     }
 }
 
@@ -60,6 +64,13 @@ fn ops_of(sc: &Scenario, index: u16, v: usize) -> Vec<(u32, Option<Vec<u32>>)> {
             2 => (3..n).map(|id| (id, None)).collect(),
             3 => (100..100 + n).map(|id| (id, Some(vec_for(sc, index, id, 3)))).collect(),
             _ => (0..3).chain(100..100 + n).map(|id| (id, None)).collect(),
+        };
+    }
+    if sc.memory.is_some() {
+        return match v {
+            1 => (0..n).map(|id| (id, Some(vec_for(sc, index, id, 1)))).collect(),
+            2 => (n..n + 420).map(|id| (id, Some(vec_for(sc, index, id, 2)))).collect(),
+            _ => (0..n).filter(|id| id % 4 == 0).map(|id| (id, None)).chain((2000..2210).map(|id| (id, Some(vec_for(sc, index, id, 3))))).collect(),
         };
     }
     match v {
@@ -123,6 +134,10 @@ pub fn child(dir: &str, scenario_name: &str, kill_at_event: i64) -> i32 {
     use std::io::Write;
     let sc = scenario(scenario_name);
     let dir = PathBuf::from(dir);
+    // a restarted process continues the history after the last version found on disk
+    let resume_after: usize = std::env::var("VERIF_CRASH_RESUME_AFTER").ok().and_then(|s| s.parse().ok()).unwrap_or(0);
+    let tmp = dir.join("tmp");
+    let _ = std::fs::create_dir_all(&tmp);
     let env = unsafe { heed::EnvOpenOptions::new().map_size(256 << 20).open(dir.join("env")) }.expect("open env");
     let mut w = env.write_txn().unwrap();
     let db: RawDb = env.create_database(&mut w, None).unwrap();
@@ -144,10 +159,12 @@ pub fn child(dir: &str, scenario_name: &str, kill_at_event: i64) -> i32 {
     writeln!(ack, "START").unwrap();
     let pool = rayon::ThreadPoolBuilder::new().num_threads(1).build().unwrap();
     pool.install(|| {
-        for v in 1..=sc.versions {
+        for v in (resume_after + 1)..=sc.versions {
             let mut wtxn = env.write_txn().unwrap();
             for index in 0..sc.indexes {
-                let writer = arroy::Writer::<D>::new(arroy_db::<D>(db), index, sc.dim);
+                let mut writer = arroy::Writer::<D>::new(arroy_db::<D>(db), index, sc.dim);
+                // build scratch files go to a directory that survives the kill, like a real deployment's
+                writer.set_tmpdir(&tmp);
                 for (id, op) in ops_of(&sc, index, v) {
                     y("item-op");
                     match op {
@@ -161,6 +178,9 @@ pub fn child(dir: &str, scenario_name: &str, kill_at_event: i64) -> i32 {
                 let mut rng = StdRng::seed_from_u64(v as u64 * 10 + index as u64);
                 let mut b = writer.builder(&mut rng);
                 b.n_trees(trees_of(v)).split_after(if sc.dim == 2 { 2 } else if sc.collapse { 4 } else { 16 });
+                if let Some(m) = sc.memory {
+                    b.available_memory(m);
+                }
                 b.cancel(|| {
                     y("cancel-poll");
                     false
@@ -194,6 +214,10 @@ struct ChildRun {
 }
 
 fn run_child(dir: &Path, scenario_name: &str, kill_at_event: i64, shim_kill_at: Option<i64>, shim_log: Option<&Path>, reference: bool) -> Result<ChildRun, String> {
+    run_child_from(dir, scenario_name, kill_at_event, shim_kill_at, shim_log, reference, None)
+}
+
+fn run_child_from(dir: &Path, scenario_name: &str, kill_at_event: i64, shim_kill_at: Option<i64>, shim_log: Option<&Path>, reference: bool, resume_after: Option<usize>) -> Result<ChildRun, String> {
     std::fs::create_dir_all(dir.join("env")).map_err(|e| e.to_string())?;
     let exe = std::env::current_exe().map_err(|e| e.to_string())?;
     let mut cmd = std::process::Command::new(exe);
@@ -214,6 +238,9 @@ fn run_child(dir: &Path, scenario_name: &str, kill_at_event: i64, shim_kill_at: 
     }
     if reference {
         cmd.env("VERIF_CRASH_REF", "1");
+    }
+    if let Some(v) = resume_after {
+        cmd.env("VERIF_CRASH_RESUME_AFTER", v.to_string());
     }
     let out = cmd.output().map_err(|e| e.to_string())?;
     use std::os::unix::process::ExitStatusExt;
@@ -293,19 +320,22 @@ pub fn run(tier: Tier) -> i32 {
     let mut report = Report::new("C09", tier, "fault_enumeration");
     report.assume("process kill, not power loss: the page cache survives; torn sectors and lost unsynced blocks exercise LMDB, which the property trusts");
     report.assume("kill points are the script's events (API boundaries, cancel polls, progress calls) and the boundaries of the write-family system calls on data.mdb");
-    let names: &[&str] = if tier == Tier::Quick { &["small", "collapse", "large"] } else { &["small", "collapse", "large", "xl"] };
+    let names: &[&str] = if tier == Tier::Quick { &["small", "collapse", "batches", "large"] } else { &["small", "collapse", "batches", "large", "xl"] };
     for n in names {
-        run_scenario(&mut report, n);
+        // quick tier: in the two bulk scenarios the history is resumed after every 6th event kill
+        // (and after every system-call kill); everywhere else after every kill
+        let resume_every = if tier == Tier::Quick && (*n == "large" || *n == "batches") { 6 } else { 1 };
+        run_scenario(&mut report, n, resume_every);
         if !report.violations.is_empty() || !report.machinery_errors.is_empty() {
             break;
         }
     }
     report.cov("exhaustive", true);
-    report.cov("rule", "one child process per kill point: every event of the scripted history (each item operation, each cancel poll, each progress call, before/after each commit) and the boundary before every write-family system call on data.mdb (pwrite / fdatasync / pwrite of each commit, counted by the LD_PRELOAD shim); a point is non-trivial when the child was really killed there; the reopened raw dump must equal the reference dump of the last acknowledged version, or of the version whose commit was in flight, and then open, satisfy S and answer exact queries");
+    report.cov("rule", "one child process per kill point: every event of the scripted history (each item operation, each cancel poll, each progress call, before/after each commit) and the boundary before every write-family system call on data.mdb (pwrite / fdatasync / pwrite of each commit, counted by the LD_PRELOAD shim); a point is non-trivial when the child was really killed there; the reopened raw dump must equal the reference dump of the last acknowledged version, or of the version whose commit was in flight, and then open, satisfy S and answer exact queries; a restarted process then redoes the remaining versions on what it found (same temp directory) and must end byte-identical to the uninterrupted run");
     report.finish()
 }
 
-fn run_scenario(report: &mut Report, scenario_name: &str) {
+fn run_scenario(report: &mut Report, scenario_name: &str, resume_every: i64) {
     use rayon::prelude::*;
     let sc = scenario(scenario_name);
     let models = models(&sc);
@@ -350,6 +380,7 @@ fn run_scenario(report: &mut Report, scenario_name: &str) {
     let mut points: Vec<Point> = (0..total_events).map(Point::Event).collect();
     points.extend((0..total_syscalls).map(Point::Syscall));
     let interrupted = AtomicU64::new(0);
+    let resumed_n = AtomicU64::new(0);
     let mid_commit = AtomicU64::new(0);
     let versions_seen: Mutex<BTreeMap<(usize, usize), u64>> = Mutex::new(BTreeMap::new());
     let first: Mutex<Option<Violation>> = Mutex::new(None);
@@ -373,7 +404,25 @@ fn run_scenario(report: &mut Report, scenario_name: &str) {
                     if run.committing.is_some() {
                         mid_commit.fetch_add(1, Ordering::Relaxed);
                     }
-                    match judge(&dir, &sc, &run, &refs, &models) {
+                    let judged = judge(&dir, &sc, &run, &refs, &models).and_then(|v| {
+                        // the restarted process continues the history on what it found (same temp
+                        // directory): the final content must be the one of the uninterrupted run
+                        let resume = match p {
+                            Point::Event(n) => n % resume_every == 0,
+                            Point::Syscall(_) => true,
+                        };
+                        if v < sc.versions && resume {
+                            let resumed = run_child_from(&dir, scenario_name, -1, None, None, false, Some(v)).map_err(|e| ("K/resume-failed".to_string(), format!("continuing after the restart from version {v}: {e}")))?;
+                            let fin = ChildRun { killed: false, last_ack: sc.versions, committing: None, done_events: resumed.done_events };
+                            if resumed.last_ack != sc.versions {
+                                return Err(("K/resume-failed".into(), format!("the restarted process stopped after version {}", resumed.last_ack)));
+                            }
+                            judge(&dir, &sc, &fin, &refs, &models).map_err(|(c, m)| (c.replace("K/", "K/after-restart:"), format!("after restarting from version {v} and redoing the remaining versions: {m}")))?;
+                            resumed_n.fetch_add(1, Ordering::Relaxed);
+                        }
+                        Ok(v)
+                    });
+                    match judged {
                         Ok(v) => {
                             *versions_seen.lock().unwrap().entry((run.last_ack, v)).or_insert(0) += 1;
                             // a few actual kill points for the evidence: the first ones, and those inside a commit
@@ -415,6 +464,7 @@ fn run_scenario(report: &mut Report, scenario_name: &str) {
     report.cov_add("evaluations", points.len() as u64);
     report.cov_add("distinct_nontrivial", interrupted.load(Ordering::Relaxed));
     report.cov_add("killed_with_a_commit_in_flight", mid_commit.load(Ordering::Relaxed));
+    report.cov_add("histories_resumed_after_the_kill", resumed_n.load(Ordering::Relaxed));
     let runs = report.coverage.entry("scenarios".to_string()).or_insert_with(|| json!([]));
     runs.as_array_mut().unwrap().push(json!({
         "scenario": scenario_name, "dim": sc.dim, "base_items": sc.base_items, "indexes": sc.indexes, "versions": sc.versions,
